@@ -410,14 +410,16 @@ class CursorRun:
             return []
         reqs = []
         drivers = self.drivers if checked else self.unchecked
-        for (c, m, v, start, scripts) in jobs:
-            reqs.append('cursor (req %s (msg %s) (value %s) (start %s)%s %s)' % (
+        jobs = [j if len(j) == 6 else tuple(j) + (None,) for j in jobs]
+        for (c, m, v, start, scripts, vsize) in jobs:
+            reqs.append('cursor (req %s (msg %s) (value %s) (start %s)%s%s %s)' % (
                 c.sexp, m['name'], wire.mval_sexp(v), start, '' if checked else ' (checks off)',
+                '' if vsize is None else ' (end %d)' % vsize,
                 ' '.join('(calls %s)' % G.items_sexp(s) for s in scripts)))
         mouts = run.model_lines(reqs)
         per_driver = {}
         parsed = []
-        for (c, m, v, start, scripts), mo in zip(jobs, mouts):
+        for (c, m, v, start, scripts, vsize), mo in zip(jobs, mouts):
             head, outs = parse_answers(mo)
             if head.get('conf') != 'true' or len(outs) != len(scripts):
                 chk.report_unproved('model-cursor', {'answer': mo[:400], 'schema_xml': open(c.xml).read()})
@@ -429,7 +431,8 @@ class CursorRun:
                 if exe:
                     lst = per_driver.setdefault((exe, cxx, std), [])
                     for si, s in enumerate(scripts):
-                        lst.append((len(parsed) - 1, si, G.driver_request(m['name'], m['level'], head['image'], start, s)))
+                        lst.append((len(parsed) - 1, si, G.driver_request(m['name'], m['level'], head['image'], start, s,
+                                                                          '-' if vsize is None else '%d' % vsize)))
         results = {}   # (job index, script index) -> impl status of the first config
         for (exe, cxx, std), lst in per_driver.items():
             rc, outs = run.run_driver(exe, [x[2] for x in lst])
@@ -437,7 +440,7 @@ class CursorRun:
                 chk.report_unproved('c04-driver-run', {'rc': rc, 'answers': len(outs), 'requests': len(lst)})
                 continue
             for (ji, si, line), io in zip(lst, outs):
-                c, m, v, start, scripts = jobs[ji]
+                c, m, v, start, scripts, vsize = jobs[ji]
                 head, mks = parsed[ji]
                 mk = mks[si]
                 ik = W.kvs(io)
@@ -456,7 +459,12 @@ class CursorRun:
         self.outcomes[st] = self.outcomes.get(st, 0) + 1
         self.distinct.add((c.idx, m['name'], head['image'], start, line))
         unspec = spec.endswith('UNSPEC')
-        if unspec:
+        if kind == 'truncated':
+            # the view is shorter than the image: the protocol specification is silent, the size checks of the
+            # model are compared with the real ones
+            spec_ok = True
+            spec = model
+        elif unspec:
             self.stats['spec_unspecified'] += 1
             prefix = spec[:-len('UNSPEC')]
             spec_ok = impl.startswith(prefix)
@@ -496,6 +504,18 @@ class CursorRun:
                         'spec': spec[:300], 'impl_status': st})
 
 
+def flat_level(bo, level, v):
+    """wire image of a level value (wire.py layout dicts)"""
+    out = list(v['block'])
+    for g, gv in zip(level['groups'], v['groups']):
+        out += gv['hdr']
+        for e in gv['entries']:
+            out += flat_level(bo, g['level'], e)
+    for d, dv in zip(level['datas'], v['datas']):
+        out += wire.put(bo, d['lenSize'], len(dv)) + list(dv)
+    return out
+
+
 def final_cursor(spec):
     last = spec.rsplit(';', 1)[-1]
     return last[4:] if last.startswith('end@') else None
@@ -505,7 +525,7 @@ def cursor_check(chk, run, cr, cases):
     tier = chk.tier
     quick = tier == 'quick'
     bo_of = {c.idx: c.layout['byteOrder'] for c in cases}
-    legal_jobs, inj_jobs, sub_jobs = [], [], []
+    legal_jobs, inj_jobs, sub_jobs, trunc_jobs = [], [], [], []
     small = []
     n_values = 2 if quick else 4
     n_legal = 3 if quick else 8
@@ -542,6 +562,12 @@ def cursor_check(chk, run, cr, cases):
                 if bs and k == 0:
                     sub_jobs.append((c, m, v, 'init', bs))
                     cr.stats['scripts_subrange'] += len(bs)
+                # (e) the same traversal through a view that ends inside the message: size checks
+                if k == 0:
+                    total = wm['hdrSize'] + len(flat_level(bo_of[c.idx], wm['level'], root))
+                    for cut in sorted(set(rng.randint(wm['hdrSize'], max(wm['hdrSize'], total - 1)) for _ in range(3))):
+                        trunc_jobs.append((c, m, v, 'init', [plain], cut))
+                        cr.stats['scripts_truncated'] = cr.stats.get('scripts_truncated', 0) + 1
                 if k == 0 and 1 <= len(G.members(m['level'])) <= (4 if quick else 5):
                     small.append((c, m, v, rng))
     chk.log('cursor scripts: %d legal, %d injected, %d subrange' % (cr.stats['scripts_legal'], cr.stats['scripts_injected'], cr.stats['scripts_subrange']))
@@ -552,6 +578,7 @@ def cursor_check(chk, run, cr, cases):
     check_traversal_end(chk, cr, legal_jobs)
     cr.execute('injected', inj_jobs)
     cr.execute('subrange', sub_jobs)
+    cr.execute('truncated', trunc_jobs)
     chk.log('injected/subrange done')
     # (b) every call sequence up to depth D over (member x wrapper), extended while the implementation accepts it
     depth = 3 if quick else 4
